@@ -123,4 +123,53 @@ def replay(case, spec=None):
     check_case(case)
 
 
-PROBES = []
+def _probe_constructor_window():
+    """the search window given to the constructor is the instance default on every transport: text that lies
+    further back than the last W characters of one read is not searched"""
+    import os
+    import socket
+    import tempfile
+    from pexpect import fdpexpect, popen_spawn, socket_pexpect
+    from pexpect.exceptions import EOF
+    for W in (3, 6, None):
+        data = b'MARK' + b'y' * 18
+        want = 0 if W is None else 1
+        # raw descriptor
+        r, w = os.pipe()
+        os.write(w, data)
+        os.close(w)
+        sp = fdpexpect.fdspawn(r, searchwindowsize=W, timeout=5)
+        try:
+            got = [sp.expect_exact([b'MARK', EOF])]
+        finally:
+            os.close(r)
+        # piped subprocess
+        fd, path = tempfile.mkstemp(prefix='c03_')
+        os.write(fd, data)
+        os.close(fd)
+        ps = popen_spawn.PopenSpawn(['/bin/cat', path], searchwindowsize=W, timeout=5)
+        try:
+            import time
+            time.sleep(0.1)
+            got.append(ps.expect([b'MARK', EOF]))
+        finally:
+            ps.proc.wait()
+            ps.proc.stdout.close()
+            ps.proc.stdin.close()
+            os.unlink(path)
+        # socket
+        a, b = socket.socketpair()
+        b.sendall(data)
+        b.close()
+        ss = socket_pexpect.SocketSpawn(a, searchwindowsize=W, timeout=5)
+        try:
+            got.append(ss.expect_exact([b'MARK', EOF]))
+        finally:
+            a.close()
+        for name, g in zip(('fdspawn', 'PopenSpawn', 'SocketSpawn'), got):
+            if g != want:
+                raise Violation('constructor-window:' + name, '%s(searchwindowsize=%r) on one read of %r: expect([MARK, EOF]) returned %r, '
+                                'the naive search of the last W characters gives %r' % (name, W, data, g, want))
+
+
+PROBES = [('probe:constructor-window', 'the search window passed to the constructor of each transport is in force', _probe_constructor_window)]
